@@ -86,3 +86,10 @@ package annotations
 //@   fresh
 //@   ensures result != nil && dyntype(result) == createdTag(recv)
 //@   assigns nothing
+
+// receiver type name as written: *T -> T, T -> T, anything else -> ""
+//@ macro func recvTypeName(e ast.Expr) string = typeis(e, *ast.StarExpr) ? (typeis(cast(e, *ast.StarExpr).X, *ast.Ident) ? cast(cast(e, *ast.StarExpr).X, *ast.Ident).Name : "") : (typeis(e, *ast.Ident) ? cast(e, *ast.Ident).Name : "")
+//@ func ExtractReceiverType
+//@   props C03 C15 C10
+//@   ensures result == recvTypeName(expr)
+//@   assigns nothing
